@@ -407,6 +407,318 @@ theorem strided_count_is_model_end :
     exact ⟨cnt_i32_eq f l s a, cntCtx_i32_eq f l s a⟩
 
 
+/-! ## Termination and size bounds for ALL four partitioners (blocked_range) -/
+
+/-- **loop_terminates.**  For every partitioner (simple, auto, static, affinity), every environment (every pattern of
+`is_stolen_task` / parent-ref / peer-stolen / cancellation answers), every `max_concurrency() = P < 2^24`, every slot and every
+`[b,e)`, grain `g ≥ 1`: the closure over the task tree finishes with fuel `3·(e-b) + 3` — every task with fuel `2·size + 2`
+(`execTask_total`), at most `e-b` tasks because every task runs (or, under cancellation, drops) at least one non-empty chunk.
+So the `= some …` hypotheses of `loop_exactly_once` / `task_tiles` are satisfiable for every input and every steal pattern:
+those theorems are about terminating executions for all four partitioners. -/
+theorem loop_terminates {σ : Type} (E : Env σ) (k : Kind) (P slot b e g : Nat) (s : σ) (hbe : b ≤ e) (he : e < 2 ^ 64) (hg : 1 ≤ g)
+    (hP : P < 2 ^ 24) : ∃ res, runLoop ops1 E (3 * (e - b) + 3) k P slot { b := b, e := e, g := g } s = some res := by
+  unfold runLoop
+  split
+  · exact ⟨_, rfl⟩
+  · rename_i hne
+    have hne' : b < e := by
+      have h1 : ops1.isEmpty { b := b, e := e, g := g } = false := by simpa using hne
+      exact (R1.isEmpty_iff _).1 h1
+    apply runTasks_total
+    · intro x hx
+      simp only [List.mem_singleton] at hx
+      subst hx
+      exact ⟨⟨⟨hbe, he, hg⟩, hne'⟩, partInv_init k P slot hP⟩
+    · simp [workSz, sz]
+
+/-- **loop_size_bounds.**  Whenever a loop over `[b,e)` finishes (any partitioner, environment, fuel): the chunks handed to the
+body and the ranges dropped by cancellation are non-empty and their sizes add up to `e - b`; hence there are at most `e - b`
+of them (number of leaves of the task tree ≤ size). -/
+theorem loop_size_bounds {σ : Type} (E : Env σ) (fuel : Nat) (k : Kind) (P slot b e g : Nat) (s s' : σ) (ran dropped : List R1)
+    (hbe : b ≤ e) (he : e < 2 ^ 64) (hg : 1 ≤ g) (hP : P < 2 ^ 24)
+    (h : runLoop ops1 E fuel k P slot { b := b, e := e, g := g } s = some (ran, dropped, s')) :
+    listSz (ran ++ dropped) = e - b ∧ (∀ c ∈ ran ++ dropped, 1 ≤ c.e - c.b) ∧ (ran ++ dropped).length ≤ e - b := by
+  have hw : WF1 { b := b, e := e, g := g } := ⟨hbe, he, hg⟩
+  obtain ⟨_, _, _, h4⟩ := loop_exactly_once sem1 E fuel k P slot _ s s' ran dropped hw hP h
+  by_cases hemp : ops1.isEmpty { b := b, e := e, g := g } = true
+  · unfold runLoop at h
+    rw [if_pos hemp] at h
+    simp only [Option.some.injEq, Prod.mk.injEq] at h
+    obtain ⟨h1, h2, _⟩ := h
+    subst h1; subst h2
+    have : ¬ b < e := by
+      intro hlt
+      have := (R1.isEmpty_iff { b := b, e := e, g := g }).2 hlt
+      have h' : R1.isEmpty { b := b, e := e, g := g } = true := hemp
+      rw [this] at h'; cases h'
+    refine ⟨by simp [listSz]; omega, by simp, by simp⟩
+  · have hne : ops1.isEmpty { b := b, e := e, g := g } = false := by simpa using hemp
+    have hlt : b < e := (R1.isEmpty_iff _).1 hne
+    obtain ⟨hgood, hsum⟩ := (h4 hne).size1 ⟨hw, hlt⟩
+    have hsz : sz ({ b := b, e := e, g := g } : R1) = e - b := rfl
+    refine ⟨by rw [hsum, hsz], fun c hc => sz_pos (hgood c hc), ?_⟩
+    have hlen : ∀ (L : List R1), (∀ x ∈ L, Good1 x) → L.length ≤ listSz L := by
+      intro L
+      induction L with
+      | nil => intro _; simp [listSz]
+      | cons x xs ih =>
+        intro hL
+        have h1 := sz_pos (hL x List.mem_cons_self)
+        have h2 := ih (fun y hy => hL y (List.mem_cons_of_mem _ hy))
+        simp only [List.length_cons, listSz]; omega
+    have := hlen _ hgood
+    rw [hsum, hsz] at this
+    exact this
+
+/-- **static_chunks_le_divisor.**  With `static_partitioner`, for every range type, every environment and every fuel for which the
+loop finishes: every task hands exactly one chunk to the body, the divisors of the tasks add up to the initial divisor
+`max_concurrency()·1`, so the body is called on at most `max 1 P` chunks (number of leaves of the task tree ≤ initial divisor). -/
+theorem static_chunks_le_divisor {R σ : Type} (ops : RangeOps R) (E : Env σ) (fuel P slot : Nat) (r : R) (s s' : σ) (ran dropped : List R)
+    (hP : P < 2 ^ 24) (h : runLoop ops E fuel .static P slot r s = some (ran, dropped, s')) :
+    ran.length ≤ max 1 (Generated.C05.staticDivPerThread * P) := by
+  unfold runLoop at h
+  split at h
+  · simp only [Option.some.injEq, Prod.mk.injEq] at h
+    obtain ⟨h1, _, _⟩ := h
+    subst h1
+    simp
+  · have := runTasks_static_count (ops := ops) (E := E) fuel [(r, initPart .static P slot)] s [] [] ran dropped s'
+      (by intro x hx; simp only [List.mem_singleton] at hx; subst hx; exact ⟨rfl, partInv_init .static P slot hP⟩) h
+    simpa [workWt, wtS, initPart] using this
+
+/-! ## parallel_for_each -/
+
+section each
+open Each
+
+/-- the state reached by `parallel_for_each` over the items `cfg.inp` (iterator category `cfg.cat`, feeder behaviour
+`cfg.feeds`, `threads` per-thread reference vertices) after an arbitrary schedule -/
+abbrev eachRun (cfg : Cfg) (threads : Nat) (sched : List Choice) : St := run cfg (initEach cfg threads) sched
+
+/-- **Category dispatch and block sizes regenerated from the headers.**  `iterator_tag_dispatch` sends pointers, vector and
+deque iterators, iterators whose tag derives from `random_access_iterator_tag`, and `move_iterator`s over them to the
+`parallel_for` path (2); list / forward_list iterators and forward tags to `forward_block_handling_task` (1); `istream_iterator`
+and input tags to `input_block_handling_task` (0); both block types hold at most `max_block_size = 4 ≥ 1` items; an
+`invoke_subroot_task` handles 3 functions, adds 3 to its `ref_count` and spawns 2 invokers. -/
+theorem for_each_generated :
+    Generated.C05Each.dispatchPointer = 2 ∧ Generated.C05Each.dispatchVector = 2 ∧ Generated.C05Each.dispatchDeque = 2 ∧
+    Generated.C05Each.dispatchCustomRandom = 2 ∧ Generated.C05Each.dispatchMoveVector = 2 ∧
+    Generated.C05Each.dispatchList = 1 ∧ Generated.C05Each.dispatchForwardList = 1 ∧ Generated.C05Each.dispatchCustomForward = 1 ∧
+    Generated.C05Each.dispatchMoveList = 1 ∧ Generated.C05Each.dispatchIstream = 0 ∧ Generated.C05Each.dispatchCustomInput = 0 ∧
+    1 ≤ Generated.C05Each.maxBlockInput ∧ 1 ≤ Generated.C05Each.maxBlockForward ∧
+    Generated.C05Each.invokeGroup = 3 ∧ Generated.C05Each.invokeSubrootRefs = 3 ∧ Generated.C05Each.invokeSubrootSpawns = 2 := by
+  decide
+
+/-- **The nested parallel_for provides `ChunksTile`.**  Whatever partitioner, number of threads, environment (without
+cancellation) and fuel: if `parallel_for(blocked_range(0, n), wrapper)` finishes with chunk list `ran`, then for every input
+sequence of length `n` the chunks, in any order, cut it into pieces that together are a permutation of it. -/
+theorem for_each_random_chunks_tile {σ : Type} (E : Env σ) (hnc : NoCancel E) (fuel : Nat) (k : Kind) (P slot g : Nat) (s s' : σ)
+    (ran dropped : List R1) (cfg : Cfg) (hn : cfg.inp.length < 2 ^ 64) (hg : 1 ≤ g) (hP : P < 2 ^ 24) (hne : cfg.inp ≠ [])
+    (h : runLoop ops1 E fuel k P slot { b := 0, e := cfg.inp.length, g := g } s = some (ran, dropped, s')) :
+    ChunksTile { cfg with chunks := ran.map (fun c => (c.b, c.e)) } := by
+  have hw : WF1 { b := 0, e := cfg.inp.length, g := g } := ⟨Nat.zero_le _, hn, hg⟩
+  have hlen : 0 < cfg.inp.length := List.length_pos_of_ne_nil hne
+  obtain ⟨_, _, h3, h4⟩ := loop_exactly_once sem1 E fuel k P slot _ s s' ran dropped hw hP h
+  have hd := h3 hnc
+  subst hd
+  have hne' : ops1.isEmpty { b := 0, e := cfg.inp.length, g := g } = false := (R1.isEmpty_iff _).2 hlen
+  obtain ⟨L', t, p⟩ := h4 hne'
+  have e1 := t.extract1 cfg.inp ⟨hw, hlen⟩
+  simp only [List.append_nil] at p
+  unfold ChunksTile
+  simp only [List.flatMap_map]
+  have e2 : cfg.inp.extract 0 cfg.inp.length = cfg.inp := by simp [List.extract_eq_drop_take]
+  rw [e2] at e1
+  refine List.Perm.trans (p.symm.flatMap_right (fun c => cfg.inp.extract c.b c.e)) ?_
+  rw [e1]
+
+
+/-- **for_each_exactly_once.**  For every input sequence, every iterator category (for the random-access path: every list of
+chunks of the nested `parallel_for` that tiles the index range, which is what `loop_exactly_once_1d` provides), every feeder
+behaviour `feeds : item → list of new items`, every number of threads and EVERY schedule (any interleaving of the operations
+of the running tasks, pending tasks started in any order by any thread):
+* at every moment no item has had more body calls than it was supplied — as an element of the input or by a `feeder::add` of a
+  body call that has already started;
+* once the call has returned, the multiset of body calls is exactly the input items plus everything those calls fed
+  (transitively): each item exactly once, nothing else;
+* no reference counter was ever released below zero. -/
+theorem for_each_exactly_once (cfg : Cfg) (threads : Nat) (sched : List Choice) (hch : cfg.cat = .random → ChunksTile cfg) :
+    let s := eachRun cfg threads sched
+    (∀ x, (bodies s.log).count x ≤ cfg.inp.count x + ((bodies s.log).flatMap cfg.feeds).count x) ∧
+    (returned s = true → (bodies s.log).Perm (cfg.inp ++ (bodies s.log).flatMap cfg.feeds)) ∧
+    s.bad = false := by
+  intro s
+  have hR : Reach .body cfg cfg.inp s := Reach.run hch sched (reach_initEach cfg threads)
+  refine ⟨fun x => ?_, fun hr => ?_, hR.i1.ok⟩
+  · have := hR.at_most x
+    simpa [starts, fedM, fedBy] using this
+  · have := hR.exactly hr
+    simpa [starts, fedM, fedBy] using this
+
+/-- **for_each_wait_covers_fed.**  (i) At ANY moment of ANY schedule at which the root wait context reads zero, no spawned
+task is pending and every activation other than the caller has only item destructions left: in particular no body call is
+running or still to come — the `feeder_item_task` constructor reserves its reference before the feeding body returns, so the
+counter cannot reach zero while fed work exists.  (ii) Once `parallel_for_each` has returned: nothing is pending, every
+activation has only item destructions left, and every body call that started has ended. -/
+theorem for_each_wait_covers_fed (cfg : Cfg) (threads : Nat) (sched : List Choice) (hch : cfg.cat = .random → ChunksTile cfg) :
+    let s := eachRun cfg threads sched
+    (s.root = 0 → s.pool = [] ∧ ∀ a ∈ s.acts.tail, Idle a.ops) ∧
+    (returned s = true → s.pool = [] ∧ (∀ a ∈ s.acts, Idle a.ops) ∧ (bodies s.log).Perm (bodyEnds s.log)) := by
+  intro s
+  have hR : Reach5 .body cfg cfg.inp s := Reach5.run hch sched (reach5_initEach cfg threads)
+  refine ⟨fun h0 => ?_, fun hr => ?_⟩
+  · obtain ⟨z1, z2⟩ := zero_of_root_zero hR.r.i1 hR.r.i2 h0
+    obtain ⟨m, others, hm0, _, hoth, _, _⟩ := hR.r.i2.main
+    refine ⟨z1, fun a ha => ?_⟩
+    rw [hm0] at ha
+    have ha' : a ∈ others := ha
+    exact idle_of_weightless (hoth a ha').1 (z2 a (by rw [hm0]; exact List.mem_cons_of_mem _ ha'))
+  · obtain ⟨q1, q2⟩ := hR.r.quiet hr
+    exact ⟨q1, q2, by simpa [starts, ends] using hR.all_ended hr⟩
+
+/-- **for_each_block_bounds.**  Input and forward iterators, `max_block_size ≥ 1`, every schedule: the blocks formed so far tile
+an initial segment of the input sequence in order (each starts where the previous one ended) and have between 1 and
+`max_block_size` items; the iterator `my_first` has been incremented exactly from positions `0, 1, …, iter-1` in this order and
+never beyond the end; for input iterators it has been dereferenced exactly at those positions (once each: single pass); there is
+never more than one instance of the root task (pending, running, or about to be re-spawned), so the iterator is advanced by one
+task at a time; and once the call has returned the whole sequence has been consumed and the blocks cover all of it. -/
+theorem for_each_block_bounds (cfg : Cfg) (threads : Nat) (sched : List Choice) (hch : cfg.cat = .random → ChunksTile cfg)
+    (hmx : 1 ≤ cfg.maxBlock) :
+    let s := eachRun cfg threads sched
+    TiledL cfg.maxBlock s.log ∧ incs s.log = List.range s.iter ∧ s.iter ≤ cfg.inp.length ∧
+    (cfg.cat = .input → derefs s.log = List.range s.iter) ∧
+    RIP s.pool + RIA s.acts ≤ 1 ∧
+    (cfg.cat ≠ .random → returned s = true → s.iter = cfg.inp.length ∧ lastEnd s.log = cfg.inp.length) := by
+  intro s
+  have hR : ReachE cfg s := ReachE.run hch hmx sched (reachE_init cfg threads)
+  exact ⟨hR.i4.tiled, hR.i4.incs, hR.i4.le, hR.i4.derefs, hR.r5.r.i3.ri, fun hnr hr => hR.consumed hnr hr⟩
+
+/-- **for_each_item_lifetime.**  Input iterators copy every item into `block_iteration_space` of a block task
+(`copy b j x`: item `x` into slot `j` of block `b`), the iteration tasks call the body on these copies (`bodyS x (slot b j)` …
+`bodyE x (slot b j)`) and `~input_block_handling_task` destroys them (`destroy b j x`).  For every schedule:
+* **alive during the body call** (`LifeOK`): every body start and every body end on slot `j` of block `b` is preceded in the log
+  by the copy of that item into that slot, and by NO destruction of any item of block `b` — the destructions come after the wait
+  on the block's counter, which every running body call on one of the block's slots keeps positive (block ids are fresh, at most
+  one activation ever waits on a block's counter);
+* **destroyed exactly once**: for every `(b, j, x)` the destructions of that copy never exceed the number of times it was made,
+  the difference being exactly the destructions some activation still has to perform plus the copy sitting in the block under
+  construction; when every activation has finished every copy has been destroyed exactly as often as it was made.
+The destructions happen AFTER the block released its reference on the root wait context (`finalize`:
+`my_root_wait_context.release(); my_allocator.delete_object(this, ed)`), possibly after `parallel_for_each` has returned — which is
+why `for_each_wait_covers_fed` speaks of "item destructions left". -/
+theorem for_each_item_lifetime (cfg : Cfg) (threads : Nat) (sched : List Choice) (hch : cfg.cat = .random → ChunksTile cfg)
+    (hmx : 1 ≤ cfg.maxBlock) :
+    let s := eachRun cfg threads sched
+    LifeOK s.log ∧
+    ∀ b j x, destroyCount b j x s.log ≤ copyCount b j x s.log ∧
+      copyCount b j x s.log = destroyCount b j x s.log + PDA cfg.cat b j x s.acts ∧
+      ((∀ a ∈ s.acts, a.ops = []) → destroyCount b j x s.log = copyCount b j x s.log) := by
+  intro s
+  have hR : ReachO cfg s := ReachO.run hch hmx sched (reachO_init cfg threads)
+  refine ⟨hR.o.life, fun b j x => ?_⟩
+  have h := hR.l.i6 b j x
+  refine ⟨by omega, h, fun hfin => ?_⟩
+  have h0 : PDA cfg.cat b j x s.acts = 0 := by
+    unfold PDA
+    generalize s.acts = l at hfin
+    induction l with
+    | nil => rfl
+    | cons a r ih =>
+      simp only [List.map_cons, List.sum_cons, hfin a List.mem_cons_self, PD_nil, ih (fun c hc => hfin c (List.mem_cons_of_mem _ hc))]
+  omega
+
+end each
+
+/-! ## parallel_invoke -/
+
+section invoke
+open Each
+
+/-- the state reached by `parallel_invoke(f_0, …, f_{n-1})` after an arbitrary schedule -/
+abbrev invokeRun (n : Nat) (sched : List Choice) : St := run {} (initInvoke n) sched
+
+/-- **invoke_each_once.**  For every `n` and every schedule: no function is ever called more than once and only functions
+`f_0 … f_{n-1}` are called; once `parallel_invoke` has returned every one of them has been called exactly once, every call has
+ended, no task is pending and every `function_invoker` / `invoke_subroot_task` has finished; no reference counter (root wait
+context, subroot `ref_count`) was ever released below zero. -/
+theorem invoke_each_once (n : Nat) (sched : List Choice) :
+    let s := invokeRun n sched
+    (∀ f, (calls s.log).count f ≤ if f < n then 1 else 0) ∧
+    (returned s = true → (calls s.log).Perm (List.range n) ∧ (calls s.log).Perm (callEnds s.log) ∧ s.pool = [] ∧ ∀ a ∈ s.acts, Idle a.ops) ∧
+    (s.root = 0 → s.pool = [] ∧ ∀ a ∈ s.acts.tail, Idle a.ops) ∧
+    s.bad = false := by
+  intro s
+  have hR : Reach5 .call {} (List.range n) s := Reach5.run (fun h => by cases h) sched (reach5_initInvoke {} n)
+  refine ⟨fun f => ?_, fun hr => ?_, fun h0 => ?_, hR.r.i1.ok⟩
+  · have := hR.r.at_most f
+    simpa [starts, fedM, count_range] using this
+  · obtain ⟨q1, q2⟩ := hR.r.quiet hr
+    refine ⟨by simpa [starts, fedM] using hR.r.exactly hr, by simpa [starts, ends] using hR.all_ended hr, q1, q2⟩
+  · obtain ⟨z1, z2⟩ := zero_of_root_zero hR.r.i1 hR.r.i2 h0
+    obtain ⟨m, others, hm0, _, hoth, _, _⟩ := hR.r.i2.main
+    refine ⟨z1, fun a ha => ?_⟩
+    rw [hm0] at ha
+    have ha' : a ∈ others := ha
+    exact idle_of_weightless (hoth a ha').1 (z2 a (by rw [hm0]; exact List.mem_cons_of_mem _ ha'))
+
+/-- the subroot tasks the caller spawns, in order -/
+def subrootsOf : List Op → List (Nat × Nat × Nat)
+  | [] => []
+  | .spawn (.subroot a b c) :: r => (a, b, c) :: subrootsOf r
+  | _ :: r => subrootsOf r
+
+/-- the functions the caller hands to plain `function_invoker`s on the root wait context -/
+def rootInvokersOf : List Op → List Nat
+  | [] => []
+  | .spawn (.inv f .root) :: r => f :: rootInvokersOf r
+  | _ :: r => rootInvokersOf r
+
+/-- the functions the caller runs itself -/
+def selfCallsOf : List Op → List Nat
+  | [] => []
+  | .act (.callS f) :: r => f :: selfCallsOf r
+  | _ :: r => selfCallsOf r
+
+/-- **invoke_tree_shape.**  How `invoke_recursive_separation` groups `n ≥ 1` functions starting at index `i`: as long as more
+than three remain, the first three go to a new `invoke_subroot_task` (which runs the first of them itself and spawns invokers for
+the other two); the last `r = n - 3·⌊(n-1)/3⌋ ∈ {1,2,3}` functions are handled by the caller: `r - 1` root invokers are spawned
+and the very last function is run by the calling thread.  In particular with `n mod 3 = 0` the last THREE functions belong to the
+caller, not to a subroot. -/
+theorem invoke_tree_shape (i n : Nat) (hn : 1 ≤ n) :
+    subrootsOf (mainInvoke i n) = (List.range ((n - 1) / 3)).map (fun k => (i + 3 * k, i + 3 * k + 1, i + 3 * k + 2)) ∧
+    rootInvokersOf (mainInvoke i n) = (List.range (n - 1 - 3 * ((n - 1) / 3))).map (fun j => i + 3 * ((n - 1) / 3) + j) ∧
+    selfCallsOf (mainInvoke i n) = [i + n - 1] := by
+  fun_induction mainInvoke i n with
+  | case1 i => omega
+  | case2 i => simp [subrootsOf, rootInvokersOf, selfCallsOf]
+  | case3 i => simp [subrootsOf, rootInvokersOf, selfCallsOf, List.range_succ]
+  | case4 i => simp [subrootsOf, rootInvokersOf, selfCallsOf, List.range_succ]
+  | case5 i rem h1 ih =>
+    have hrem : 1 ≤ rem := by
+      rcases Nat.eq_zero_or_pos rem with h | h
+      · subst h; exact absurd rfl h1
+      · exact h
+    obtain ⟨a1, a2, a3⟩ := ih hrem
+    have e1 : (rem + 3 - 1) / 3 = (rem - 1) / 3 + 1 := by omega
+    refine ⟨?_, ?_, ?_⟩
+    · simp only [subrootsOf, a1, e1, List.range_succ_eq_map, List.map_cons, List.map_map]
+      simp only [Nat.mul_zero, Nat.add_zero, List.cons.injEq, true_and]
+      apply List.map_congr_left
+      intro k _
+      simp only [Function.comp, Prod.mk.injEq]
+      omega
+    · simp only [rootInvokersOf, a2, e1]
+      have e2 : rem + 3 - 1 - 3 * ((rem - 1) / 3 + 1) = rem - 1 - 3 * ((rem - 1) / 3) := by omega
+      rw [e2]
+      apply List.map_congr_left
+      intro j _
+      omega
+    · simp only [selfCallsOf, a3]
+      congr 1
+      omega
+
+end invoke
+
 /-! ## Non-vacuity -/
 
 /-- a 1-d simple_partitioner loop that finishes: `[0,10)` with grain 2 gives 6 chunks, nothing dropped -/
@@ -453,5 +765,39 @@ example :
     (([RV.Op.fill 5, .popFront, .popBack, .fill 7].foldl (RV.step ops1) (RV.init { b := 0, e := 100, g := 1 }, [])).1.toList.map
       (fun x => (x.1.b, x.1.e, x.2))) = [(3, 4, 6), (4, 6, 6), (6, 12, 4), (12, 25, 3), (25, 50, 2)] := by
   decide
+
+
+/-- termination is not vacuous: an affinity_partitioner loop whose environment answers "stolen / peer stolen" to everything -/
+example : ∃ res, runLoop ops1 bitsEnv (3 * (1000 - 3) + 3) .affinity 7 2 { b := 3, e := 1000, g := 5 } (List.replicate 500 true) = some res :=
+  loop_terminates bitsEnv .affinity 7 2 3 1000 5 _ (by decide) (by decide) (by decide) (by decide)
+
+section
+open Each
+
+/-- parallel_for_each over two items through an input iterator, the first item feeds one more: a schedule under which the call
+returns; the three body calls are exactly the input plus the fed item; two blocks… one block of two items -/
+def exCfg : Cfg := { cat := .input, inp := [7, 8], feeds := fun x => if x = 7 then [70] else [], maxBlock := Generated.C05Each.maxBlockInput }
+
+set_option maxRecDepth 8000 in
+example : returned (eachRun exCfg 2 (roundRobin 30 5)) = true ∧ (bodies (eachRun exCfg 2 (roundRobin 30 5)).log) = [70, 7, 8] ∧
+    Each.blocks (eachRun exCfg 2 (roundRobin 30 5)).log = [(0, 0, 2)] ∧
+    copyCount 0 1 8 (eachRun exCfg 2 (roundRobin 30 5)).log = 1 ∧ destroyCount 0 1 8 (eachRun exCfg 2 (roundRobin 30 5)).log = 1 ∧
+    Act.bodyS 8 (.slot 0 1) ∈ (eachRun exCfg 2 (roundRobin 30 5)).log := by decide
+
+/-- … and at an intermediate moment the root counter is positive while work is pending (the first conjunct of
+for_each_wait_covers_fed is not vacuous in the other direction either) -/
+example : (eachRun exCfg 2 ((roundRobin 7 5).drop 1)).root = 2 ∧ (eachRun exCfg 2 ((roundRobin 7 5).drop 1)).pool.length = 1 := by decide
+
+set_option maxRecDepth 8000 in
+/-- parallel_invoke with 7 functions: two subroots and one function for the caller; a schedule under which it returns -/
+example : returned (invokeRun 7 (roundRobin 30 8)) = true ∧ (calls (invokeRun 7 (roundRobin 30 8)).log).length = 7 ∧
+    subrootsOf (mainInvoke 0 7) = [(0, 1, 2), (3, 4, 5)] ∧ selfCallsOf (mainInvoke 0 7) = [6] ∧
+    subrootsOf (mainInvoke 0 6) = [(0, 1, 2)] ∧ rootInvokersOf (mainInvoke 0 6) = [3, 4] ∧ selfCallsOf (mainInvoke 0 6) = [5] := by decide
+
+/-- the random-access path with a chunk list that tiles the index range -/
+example : ChunksTile { cat := .random, inp := [5, 6, 7, 8], chunks := [(2, 4), (0, 1), (1, 2)] } := by
+  unfold ChunksTile; decide
+
+end
 
 end TbbVerif.C05
